@@ -123,8 +123,10 @@ ChkDb(m, e) ==
 ChkPan(m, e) ==
   IF e.p THEN "no_panic"
   ELSE IF e.x = 0 /\ ~(Near(e.l6, MILLION, 1) /\ Near(e.r6, MILLION, 1)) THEN "pan_centre_keeps_level"
-  ELSE IF e.x = -K_ONE /\ ~(e.r6 = 0 /\ e.l6 > 0) THEN "pan_hard_left"
-  ELSE IF e.x = K_ONE /\ ~(e.l6 = 0 /\ e.r6 > 0) THEN "pan_hard_right"
+  ELSE IF "fin" \in DOMAIN e /\ ~e.fin THEN "pan_output_finite"
+  \* (a panning beyond the ends of the range is hard left / hard right)
+  ELSE IF e.x <= -K_ONE /\ ~(e.r6 = 0 /\ e.l6 > 0) THEN "pan_hard_left"
+  ELSE IF e.x >= K_ONE /\ ~(e.l6 = 0 /\ e.r6 > 0) THEN "pan_hard_right"
   ELSE IF e.l14 < 0 \/ e.r14 < 0 \/ e.l14 > 24000 \/ e.r14 > 24000 THEN "pan_keeps_total_power"   \* (32-bit squares)
   ELSE IF ~Near(e.l14 * e.l14 + e.r14 * e.r14, 2 * S14 * S14, PanTol) THEN "pan_keeps_total_power"
   ELSE ""
